@@ -58,24 +58,39 @@ fn prior_class(vt: &Vt) -> u64 {
 /// Check one inert sequence on a terminal in whatever state it is in (parser in ground).
 /// Returns a description of the first observable change.
 pub fn check_inert(vt: &mut Vt, seq: &str, per_char: bool) -> Option<String> {
+    check_inert_mode(vt, seq, if per_char { Feeding::PerChar } else { Feeding::Whole })
+}
+
+/// how the sequence reaches the terminal: one feed_str call, feed() per character, or feed_str calls
+/// cut after the given number of characters (the string is then open across a call boundary)
+#[derive(Clone, Copy, Debug, PartialEq)]
+pub enum Feeding {
+    Whole,
+    PerChar,
+    CutAfter(usize),
+}
+
+pub fn check_inert_mode(vt: &mut Vt, seq: &str, mode: Feeding) -> Option<String> {
     drop(vt.feed_str("")); // flush pending changed-line reports and trimming
     let before = Snap::of(vt);
     let hb = hidden(vt);
-    if per_char {
-        for ch in seq.chars() {
-            vt.feed(ch);
+    let mut pieces: Vec<String> = Vec::new();
+    match mode {
+        Feeding::PerChar => {
+            for ch in seq.chars() {
+                vt.feed(ch);
+            }
+            pieces.push(String::new());
         }
-        let ch = vt.feed_str("");
-        let lines = ch.lines.clone();
-        let drained = ch.scrollback.count();
-        if !lines.is_empty() {
-            return Some(format!("rows {:?} reported changed", lines));
+        Feeding::Whole => pieces.push(seq.to_string()),
+        Feeding::CutAfter(n) => {
+            let n = n % seq.chars().count().max(1);
+            pieces.push(seq.chars().take(n).collect());
+            pieces.push(seq.chars().skip(n).collect());
         }
-        if drained != 0 {
-            return Some(format!("{} scrollback lines handed out", drained));
-        }
-    } else {
-        let ch = vt.feed_str(seq);
+    }
+    for piece in &pieces {
+        let ch = vt.feed_str(piece);
         let lines = ch.lines.clone();
         let drained = ch.scrollback.count();
         if !lines.is_empty() {
@@ -235,7 +250,12 @@ pub fn work(ctx: &Ctx, rep: &mut Report) {
             let mut vt = h.build();
             drop(vt.feed_str(pre));
             let k = seq_key(&seqs[si], prior_class(&vt));
-            let mut r = check_inert(&mut vt, &seqs[si], u % 2 == 1);
+            let mode = match u % 3 {
+                0 => Feeding::Whole,
+                1 => Feeding::PerChar,
+                _ => Feeding::CutAfter(1 + u / 3),
+            };
+            let mut r = check_inert_mode(&mut vt, &seqs[si], mode);
             if r.is_none() {
                 let mut twin = h.build();
                 drop(twin.feed_str(pre));
@@ -275,7 +295,14 @@ pub fn work(ctx: &Ctx, rep: &mut Report) {
             }
         }
         rep.evaluations += 1;
-        let per_char = r.chance(1, 3);
+        let mode = match r.below(3) {
+            0 => Feeding::PerChar,
+            1 => Feeding::CutAfter(r.below(64)),
+            _ => Feeding::Whole,
+        };
+        if let Feeding::CutAfter(_) = mode {
+            rep.count("histories_with_inert_sequences_cut_across_two_calls", 1);
+        }
         let hh = h.clone();
         let res = guarded(|| {
             let mut vt = hh.build();
@@ -289,7 +316,7 @@ pub fn work(ctx: &Ctx, rep: &mut Report) {
             let mut keys = Vec::new();
             for s in &cands {
                 keys.push(seq_key(s, prior_class(&vt)));
-                if let Some(d) = check_inert(&mut vt, s, per_char) {
+                if let Some(d) = check_inert_mode(&mut vt, s, mode) {
                     return (Some((s.clone(), d)), keys);
                 }
             }
@@ -338,7 +365,10 @@ pub fn replay(h: &History, rep: &mut Report) {
     if !model_inert(seq) {
         return;
     }
-    for per_char in [false, true] {
+    let nch = seq.chars().count();
+    let mut modes = vec![Feeding::Whole, Feeding::PerChar];
+    modes.extend((1..nch.min(200)).map(Feeding::CutAfter));
+    for mode in modes {
         let res = guarded(|| {
             let mut vt = h.build();
             for c in prior {
@@ -348,8 +378,8 @@ pub fn replay(h: &History, rep: &mut Report) {
                     Call::Resize(c, r) => drop(vt.resize(*c, *r)),
                 }
             }
-            let mut r = check_inert(&mut vt, seq, per_char);
-            if r.is_none() {
+            let mut r = check_inert_mode(&mut vt, seq, mode);
+            if r.is_none() && mode == Feeding::Whole {
                 for probe in PROBES {
                     let mut a = h.build();
                     let mut b = h.build();
